@@ -61,8 +61,8 @@ def build_many(pairs, flags=(), tag="", fe="functor"):
 # ---------------------------------------------------------------- scripts
 class ScriptGen:
     """seeded random walks over the API of a definition"""
-    def __init__(self, d, seed, throws=0.15, subs=0.25, enq=0.1, drain=0.1, restart=0.05, maxcalls=7, maxplan=12, startsubs=0.1, copy=0.0, ninst=1, evbias=0.0, destroy=0.0, saveload=0.0):
-        self.copy = copy; self.ninst = ninst; self.evbias = evbias; self.destroy = destroy; self.saveload = saveload
+    def __init__(self, d, seed, throws=0.15, subs=0.25, enq=0.1, drain=0.1, restart=0.05, maxcalls=7, maxplan=12, startsubs=0.1, copy=0.0, ninst=1, evbias=0.0, destroy=0.0, saveload=0.0, moves=0.0):
+        self.moves = moves; self.copy = copy; self.ninst = ninst; self.evbias = evbias; self.destroy = destroy; self.saveload = saveload
         self.hot = sorted(set(e for m in d.machines.values() for st in m["states"].values() for e in st["defers"] if e in d.events))
         self.d = d; self.rnd = random.Random(seed); self.throws = throws; self.subs = subs; self.enq = enq
         self.drain = drain; self.restart = restart; self.maxcalls = maxcalls; self.maxplan = maxplan; self.startsubs = startsubs
@@ -96,6 +96,7 @@ class ScriptGen:
         self.sticky = {g: self.rnd.choice("01") for g in self.d.sticky}
         L = ["reset", "start 0 %s %s" % (self.gv(), self.plan(False, self.startsubs))]
         running = {0: True}          # live instances -> started?
+        burnt = set()                # slots of moved-from objects
         sources = set()              # instances that were copied from (never destroyed: back closures may refer to them)
         for _ in range(self.rnd.randint(1, self.maxcalls)):
             i = self.rnd.choice(sorted(running))
@@ -108,9 +109,15 @@ class ScriptGen:
                 j = min(k for k in range(self.ninst) if k not in running)
                 L.append("saveload %d %d %s" % (i, j, self.rnd.choice(["text", "binary"]))); running[j] = True; continue
             if self.copy and r < self.copy and self.ninst > 1:
-                j = self.rnd.choice([k for k in range(self.ninst) if k != i])
-                # copy-construct only into a slot that holds no object yet (an object must not be destroyed while closures may refer to it)
+                cands = [k for k in range(self.ninst) if k != i and k not in burnt]
+                if not cands: continue
+                j = self.rnd.choice(cands)
+                # copy-/move-construct only into a slot that holds no object yet, and never reuse the slot of a moved-from object
+                # (back closures refer to objects, the model refers to slots: the two must stay in one-to-one correspondence)
                 op = "assign" if j in running else self.rnd.choice(["copy", "assign"])
+                if self.moves and self.rnd.random() < self.moves:
+                    op = "moveassign" if j in running else self.rnd.choice(["move", "moveassign"])
+                    L.append("%s %d %d" % (op, i, j)); running[j] = True; del running[i]; burnt.add(i); continue
                 L.append("%s %d %d" % (op, i, j)); running[j] = True; sources.add(i); continue
             r = self.rnd.random()
             if r < self.restart:
